@@ -276,6 +276,8 @@ def survives_suite(m):
         xml = os.path.join(base, "junit.xml")
         try:
             subprocess.run(["/venv/bin/python", "-m", "pytest", "-q", "-x", "-p", "no:cacheprovider", "--timeout=120", "--deselect", "tests/test_matching.py::test_all_patterns[moonbounce_malware_full_111826_lines_binarly.s]",
+                            "--deselect", "tests/test_parsing.py::test_correct_number_of_lines_with_regex[moonbounce_malware_full_111826_lines.s]",
+                            "--deselect", "tests/test_parsing.py::test_parsing_number_of_lines[moonbounce_malware_full_111826_lines.s]",
                             f"--junitxml={xml}"], cwd=copy, env=env, capture_output=True, timeout=900)
         except subprocess.TimeoutExpired:
             return "timeout"
